@@ -17,4 +17,5 @@ case "$patch" in
 esac
 (cd "$T/repo" && go build ./... ) || { echo "BUILD-FAILED"; exit 4; }
 if [ "${RUN_TESTS:-0}" = 1 ]; then (cd "$T/repo" && go test -vet=off -count=1 ./... 2>&1 | grep -v '^ok\|no test files' ; true); fi
+if [ -n "${DUMP:-}" ]; then "$HERE/bin/ucandump" -repo "$T/repo" "$DUMP" | sed "s#$T/repo/##g"; fi
 "$HERE/bin/ucanlint" -property "$props" -tier quick -repo "$T/repo" -verif "$HERE" -out "$T/out" | sed "s#$T/repo/##g"
